@@ -473,6 +473,20 @@ static void sc_connect_prep(void) {
     fd_op('c', NULL, 0);
 }
 
+/* every authority / host-port form: IPv6 literals with and without port in CONNECT targets, absolute URIs (with userinfo) and Host fields */
+static void sc_hostport_forms_prep(void) {
+    fd_sc_reset(); fd_sc.chunk = 90;
+    Q("CONNECT [::1]:8443 HTTP/1.1\r\nHost: [::1]:8443\r\n\r\n");
+    S("HTTP/1.1 403 Forbidden\r\nContent-Length: 0\r\n\r\n");
+    Q("GET http://user:pw@[2001:db8::2]:8080/p/../q?x=1#f HTTP/1.1\r\nHost: [2001:db8::2]:8080\r\n\r\n");
+    S("HTTP/1.1 200 OK\r\nContent-Length: 0\r\n\r\n");
+    Q("GET http://[::1]/ HTTP/1.1\r\nHost: [::1]\r\n\r\n");
+    S("HTTP/1.1 200 OK\r\nContent-Length: 0\r\n\r\n");
+    Q("GET http://Example.COM.:80/a HTTP/1.1\r\nHost: other.example:81\r\n\r\n");
+    S("HTTP/1.1 200 OK\r\nContent-Length: 0\r\n\r\n");
+    fd_op('c', NULL, 0);
+}
+
 /* ---- hybrid API */
 #define H(x) do { htp_status_t _r = (x); fd_note(_r == HTP_OK ? "k" : (_r == HTP_ERROR ? "e" : "o")); } while (0)
 /* a hybrid-API user stops working on a transaction at the first HTP_ERROR */
@@ -653,6 +667,7 @@ static fd_scenario_t fd_scenarios[] = {
     { "log_invalid", sc_log_invalid_prep, fd_run_script },
     { "hooks_runtime", sc_hooks_runtime_prep, fd_run_script },
     { "connect", sc_connect_prep, fd_run_script },
+    { "hostport_forms", sc_hostport_forms_prep, fd_run_script },
     { "hybrid", fd_sc_reset, sc_hybrid_run },
     { "containers", sc_none, sc_containers_run },
     { NULL, NULL, NULL }
